@@ -71,6 +71,101 @@ Theorem C05_refcounter_retain_matches_source : forall w r n, cnt (retain1 w r n)
 Proof. exact bridge_rc_retain_sync. Qed.
 Print Assumptions C05_refcounter_kernel_matches_source.
 
+(* ---- node bridges (harness/mkprops_nodes.py): begin ---- *)
+(* The update methods of the node classes are the ones regenerated from the source under test on this run:
+   Gen/KN_<class>.v is written by harness/gen_nodes.py from the python AST of streamz/core.py, statement by statement,
+   in the monad of Base/MiniPy.v; Base/BridgeNodes.v proves that it is the update function of Sync/Nodes.v.
+   `run` form: additionally the method never raises after an effect (RLate); `update` form: the model's
+   option (list action).  For combine_latest / zip_latest (and partition_unique) the equality is modulo
+   retains / releases of an EMPTY metadata list, which Pipeline.run_actions ignores (strip_run_actions). *)
+From SZ Require Import Base.MiniPy Base.BridgeNodes.
+Theorem C05_update_partition_matches_source :
+  forall n key s p x m, Gen.KN_partition.gen_update_partition n key s p x m = update (KPartition n key) s p x m.
+Proof. exact bridge_update_partition. Qed.
+Print Assumptions C05_update_partition_matches_source.
+Theorem C05_run_partition_matches_source :
+  forall n key s p x m, Gen.KN_partition.gen_run_partition n key s p x m = of_option (update (KPartition n key) s p x m).
+Proof. exact bridge_run_partition. Qed.
+Print Assumptions C05_run_partition_matches_source.
+Theorem C05_coroutine_partition_matches_source :
+  forall n key, is_coroutine (KPartition n key) = Gen.KN_partition.gen_is_coroutine_partition.
+Proof. exact bridge_coroutine_partition. Qed.
+Print Assumptions C05_coroutine_partition_matches_source.
+Theorem C05_update_sliding_window_matches_source :
+  forall n partial s p x m, 1 <= n ->
+  Gen.KN_sliding_window.gen_update_sliding_window n partial s p x m = update (KSliding n partial) s p x m.
+Proof. exact bridge_update_sliding_window. Qed.
+Print Assumptions C05_update_sliding_window_matches_source.
+Theorem C05_run_sliding_window_matches_source :
+  forall n partial s p x m, 1 <= n ->
+  Gen.KN_sliding_window.gen_run_sliding_window n partial s p x m = of_option (update (KSliding n partial) s p x m).
+Proof. exact bridge_run_sliding_window. Qed.
+Print Assumptions C05_run_sliding_window_matches_source.
+Theorem C05_update_collect_matches_source :
+  forall s p x m, Gen.KN_collect.gen_update_collect s p x m = update (KCollect) s p x m.
+Proof. exact bridge_update_collect. Qed.
+Print Assumptions C05_update_collect_matches_source.
+Theorem C05_run_collect_matches_source :
+  forall s p x m, Gen.KN_collect.gen_run_collect s p x m = of_option (update (KCollect) s p x m).
+Proof. exact bridge_run_collect. Qed.
+Print Assumptions C05_run_collect_matches_source.
+Theorem C05_flush_collect_matches_source :
+  forall s, Gen.KN_collect.gen_flush_collect s = RSome (flush_actions s).
+Proof. exact bridge_flush_collect. Qed.
+Print Assumptions C05_flush_collect_matches_source.
+Theorem C05_update_zip_matches_source :
+  forall lits maxsize s p x m, p < length (st_ports s) ->
+  Gen.KN_zip.gen_update_zip lits maxsize s p x m = update (KZip lits) s p x m.
+Proof. exact bridge_update_zip. Qed.
+Print Assumptions C05_update_zip_matches_source.
+Theorem C05_run_zip_matches_source :
+  forall lits maxsize s p x m, p < length (st_ports s) ->
+  Gen.KN_zip.gen_run_zip lits maxsize s p x m = of_option (update (KZip lits) s p x m).
+Proof. exact bridge_run_zip. Qed.
+Print Assumptions C05_run_zip_matches_source.
+Theorem C05_strip_has_no_effect : forall emit coro d l w, run_actions emit coro d (strip l) w = run_actions emit coro d l w.
+Proof. exact strip_run_actions. Qed.
+Print Assumptions C05_strip_has_no_effect.
+Theorem C05_update_combine_latest_matches_source :
+  forall eo s p x m, p < length (st_last s) ->
+  option_map strip (Gen.KN_combine_latest.gen_update_combine_latest eo s p x m) = option_map strip (update (KCombineLatest eo) s p x m).
+Proof. exact bridge_update_combine_latest. Qed.
+Print Assumptions C05_update_combine_latest_matches_source.
+Theorem C05_run_combine_latest_matches_source :
+  forall eo s p x m, p < length (st_last s) ->
+  strip_r (Gen.KN_combine_latest.gen_run_combine_latest eo s p x m) = strip_r (of_option (update (KCombineLatest eo) s p x m)).
+Proof. exact bridge_run_combine_latest. Qed.
+Print Assumptions C05_run_combine_latest_matches_source.
+Theorem C05_update_zip_latest_matches_source :
+  forall s p x m, p < length (st_last s) ->
+  option_map strip (Gen.KN_zip_latest.gen_update_zip_latest s p x m) = option_map strip (update (KZipLatest) s p x m).
+Proof. exact bridge_update_zip_latest. Qed.
+Print Assumptions C05_update_zip_latest_matches_source.
+Theorem C05_run_zip_latest_matches_source :
+  forall s p x m, p < length (st_last s) ->
+  strip_r (Gen.KN_zip_latest.gen_run_zip_latest s p x m) = strip_r (of_option (update (KZipLatest) s p x m)).
+Proof. exact bridge_run_zip_latest. Qed.
+Print Assumptions C05_run_zip_latest_matches_source.
+Theorem C05_update_partition_unique_matches_source :
+  forall n key kl s p x m, pu_inv (st_keyed s) ->
+  option_map strip (Gen.KN_partition_unique.gen_update_partition_unique n key kl s p x m) = option_map strip (update (KPartUnique n key kl) s p x m).
+Proof. exact bridge_update_partition_unique. Qed.
+Print Assumptions C05_update_partition_unique_matches_source.
+Theorem C05_run_partition_unique_matches_source :
+  forall n key kl s p x m, pu_inv (st_keyed s) ->
+  strip_r (Gen.KN_partition_unique.gen_run_partition_unique n key kl s p x m) = strip_r (of_option (update (KPartUnique n key kl) s p x m)).
+Proof. exact bridge_run_partition_unique. Qed.
+Print Assumptions C05_run_partition_unique_matches_source.
+Theorem C05_partition_unique_invariant :
+  forall n key kl s p x m acts s', pu_inv (st_keyed s) -> update (KPartUnique n key kl) s p x m = Some acts -> In (ASet s') acts -> pu_inv (st_keyed s').
+Proof. exact pu_inv_preserved. Qed.
+Print Assumptions C05_partition_unique_invariant.
+Theorem C05_partition_unique_invariant_init :
+  forall n key kl nups, pu_inv (st_keyed (init_state (KPartUnique n key kl) nups)).
+Proof. exact pu_inv_init. Qed.
+Print Assumptions C05_partition_unique_invariant_init.
+(* ---- node bridges (harness/mkprops_nodes.py): end ---- *)
+
 (* ---- generated by harness/mkprops_sync.py: begin ---- *)
 From SZ Require Sync.RefCountFull.
 Section G_kind_books_inv.
